@@ -16,6 +16,9 @@ import (
 
 var registry = map[string]PropertyDef{}
 
+// verifDir is the verification directory (evidence, known findings, stored seeded changes).
+var verifDir = "/verif"
+
 func register(p PropertyDef) { registry[p.ID] = p }
 
 func runRules(def PropertyDef, c *Ctx) *Report {
@@ -59,6 +62,7 @@ func main() {
 		}
 		return
 	}
+	verifDir = *verif
 	if *warm {
 		if _, err := Load(LoadOpts{Repo: *repo}); err != nil {
 			fmt.Fprintln(os.Stderr, "carlint: warm-up load failed:", err)
